@@ -137,3 +137,113 @@ Example lx_conclusion :
   option_map (fun p => lays TS TIn TOut TLay (snd p)) (l_memo 8 lx_run (PerformLayout, 9%N)) =
   Some (LNode TLay 0%N [LNode TLay 23%N [LNode TLay 13%N []]; LNode TLay 26%N [LNode TLay 15%N [LNode TLay 100%N []]]]).
 Proof. vm_compute. split; reflexivity. Qed.
+
+(* ---------- HQ cannot be dropped ---------- *)
+Lemma q_algo_cases s st i :
+  q_algo s st i = l_algo s st i \/
+  (exists x, st = [x] /\
+     ((t_mode i = PerformLayout /\
+       q_algo s st i = Query _ _ _ 0 (ComputeSize, snd i)
+                        (fun _ => Query _ _ _ 0 (PerformLayout, 7%N) (fun o => SetLayout _ _ _ 0 1%N (Ret _ _ _ o)))) \/
+      (t_mode i <> PerformLayout /\ q_algo s st i = Ret _ _ _ 0%N) \/
+      (t_mode i = PerformLayout /\
+       q_algo s st i = Query _ _ _ 0 hidden_child_key (fun _ => SetLayout _ _ _ 0 50%N (Ret _ _ _ 0%N))) \/
+      (t_mode i = ComputeSize /\ q_algo s st i = Query _ _ _ 0 (ComputeSize, snd i) (fun o => Ret _ _ _ o)))).
+Proof.
+  destruct s as [[|[p|p|]] b]; destruct st as [|x [|y r]]; unfold q_algo; cbn [fst]; try (left; reflexivity); right; exists x;
+    (split; [reflexivity|]); destruct (t_mode i) eqn:E; auto 6.
+  - right. left. split; [congruence|reflexivity].
+  - right. left. split; [congruence|reflexivity].
+  - right. left. split; [congruence|reflexivity].
+Qed.
+
+Lemma q_algo_WF s st i : WFAlg TIn TOut TLay t_mode (q_algo s st i).
+Proof.
+  destruct (q_algo_cases s st i) as [->|[x [_ [[_ ->]|[[_ ->]|[[_ ->]|[_ ->]]]]]]]; [apply l_algo_WF| | | |];
+    repeat (constructor; try (cbn; discriminate); intros).
+Qed.
+
+Lemma q_algo_H1 s st i : t_mode i = PerformLayout -> Visits TIn TOut TLay t_mode (seq 0 (length st)) (q_algo s st i).
+Proof.
+  intros Hm. destruct (q_algo_cases s st i) as [->|[x [-> [[_ ->]|[[C _]|[[_ ->]|[C _]]]]]]]; [apply l_algo_H1; exact Hm| |congruence| |congruence].
+  - constructor. intros o. cbn. constructor. intros o'. cbn. constructor. constructor.
+  - constructor. intros o. cbn. constructor. constructor.
+Qed.
+
+Lemma q_algo_H3 s st i : t_mode i = PerformLayout ->
+  SetsLast TIn TOut TLay (nones TS t_is_none st) (seq 0 (length st)) (q_algo s st i).
+Proof.
+  intros Hm. destruct (q_algo_cases s st i) as [->|[x [-> [[_ ->]|[[C _]|[[_ ->]|[C _]]]]]]]; [apply l_algo_H3; exact Hm| |congruence| |congruence].
+  - constructor. intros o. constructor. intros o'. constructor.
+    destruct (nones TS t_is_none [x] 0); cbn; constructor.
+  - constructor. intros o. constructor. destruct (nones TS t_is_none [x] 0); cbn; constructor.
+Qed.
+
+Lemma q_algo_NS s st i : t_mode i = ComputeSize -> SizeOnly TIn TOut TLay t_mode (q_algo s st i).
+Proof.
+  intros Hm. destruct (q_algo_cases s st i) as [->|[x [_ [[C _]|[[_ ->]|[[C _]|[_ ->]]]]]]]; [apply l_algo_NS; exact Hm|congruence| |congruence|].
+  - constructor.
+  - constructor; [reflexivity|]. intros o. constructor.
+Qed.
+
+(* two passes with root inputs 1 then 2 leave the display:none leaf with layout 0; a fresh tree laid out with input 2
+   stores 50 there; same skeleton (nothing is mutated) *)
+Lemma hq_witness :
+  option_map q_leaf_lay (q_after [1%N; 2%N]) = Some (Some 0%N) /\
+  option_map q_leaf_lay (q_after [2%N]) = Some (Some 50%N) /\
+  option_map (skel TS TIn TOut TLay) (q_after [1%N; 2%N]) = option_map (skel TS TIn TOut TLay) (q_after [2%N]).
+Proof. vm_compute. repeat split; reflexivity. Qed.
+
+(* ---------- the order part of H3 cannot be dropped ---------- *)
+Lemma o_algo_cases s st i :
+  o_algo s st i = l_algo s st i \/
+  (exists x, st = [x] /\
+     ((t_mode i = PerformLayout /\
+       o_algo s st i = SetLayout _ _ _ 0 50%N (Query _ _ _ 0 hidden_child_key (fun o => Ret _ _ _ (o + snd i)%N))) \/
+      (t_mode i <> PerformLayout /\ o_algo s st i = Ret _ _ _ 0%N))).
+Proof.
+  destruct s as [[|p] b]; destruct st as [|x [|y r]]; unfold o_algo; cbn [fst]; try (left; reflexivity); right; exists x;
+    (split; [reflexivity|]); destruct (t_mode i) eqn:E;
+    [left; split; reflexivity | right; split; [congruence|reflexivity] | right; split; [congruence|reflexivity]].
+Qed.
+
+Lemma o_algo_WF s st i : WFAlg TIn TOut TLay t_mode (o_algo s st i).
+Proof.
+  destruct (o_algo_cases s st i) as [->|[x [_ [[_ ->]|[_ ->]]]]]; [apply l_algo_WF| |];
+    repeat (constructor; try (cbn; discriminate); intros).
+Qed.
+
+Lemma o_algo_H1 s st i : t_mode i = PerformLayout -> Visits TIn TOut TLay t_mode (seq 0 (length st)) (o_algo s st i).
+Proof.
+  intros Hm. destruct (o_algo_cases s st i) as [->|[x [-> [[_ ->]|[C _]]]]]; [apply l_algo_H1; exact Hm| |congruence].
+  constructor. constructor. intros o. cbn. constructor.
+Qed.
+
+Lemma o_algo_NS s st i : t_mode i = ComputeSize -> SizeOnly TIn TOut TLay t_mode (o_algo s st i).
+Proof.
+  intros Hm. destruct (o_algo_cases s st i) as [->|[x [_ [[C _]|[_ ->]]]]]; [apply l_algo_NS; exact Hm|congruence|constructor].
+Qed.
+
+Lemma o_algo_HQ s st i : NoHiddenSize TIn TOut TLay t_mode (nones TS t_is_none st) (o_algo s st i).
+Proof.
+  destruct (o_algo_cases s st i) as [->|[x [_ [[_ ->]|[_ ->]]]]]; [apply l_algo_HQ| |];
+    repeat (constructor; try (cbn; discriminate); intros).
+Qed.
+
+(* it does store every child's layout in a PerformLayout evaluation (H3 without the order requirement) *)
+Lemma o_algo_sets_every_child s st i : t_mode i = PerformLayout ->
+  SetsLast TIn TOut TLay (fun _ => false) (seq 0 (length st)) (o_algo s st i).
+Proof.
+  intros Hm. destruct (o_algo_cases s st i) as [->|[x [-> [[_ ->]|[C _]]]]]; [|repeat (constructor; intros)|congruence].
+  unfold l_algo. rewrite Hm. generalize (fst s + snd i)%N. generalize 0 as k. clear s.
+  induction st as [|s st IH]; intros k acc; cbn [lall length]; [constructor|].
+  rewrite Hm. destruct (t_is_none s); constructor; intros o; cbv iota; constructor; rewrite remove_head_seq; apply IH.
+Qed.
+
+(* passes with root inputs 1 then 2: the second pass hits the display:none child's entry, the layout stored before the query
+   survives (50); a fresh tree: the query misses and zeroes it (0) *)
+Lemma order_witness :
+  option_map o_child_lay (o_after [1%N; 2%N]) = Some (Some 50%N) /\
+  option_map o_child_lay (o_after [2%N]) = Some (Some 0%N) /\
+  option_map (skel TS TIn TOut TLay) (o_after [1%N; 2%N]) = option_map (skel TS TIn TOut TLay) (o_after [2%N]).
+Proof. vm_compute. repeat split; reflexivity. Qed.
